@@ -289,9 +289,33 @@ def cli_sample(bins, pid, tier, seed):
             finally:
                 fx.cleanup()
         return recs
+    def slashed():
+        # targets declared with a trailing slash and named by `uses` entries spelled the same way: a two-cycle, a cycle
+        # through a nested target, and their acyclic twins
+        recs = []
+        cases = [[{"path": "lib/", "uses": ["app/"]}, {"path": "app/", "uses": ["lib/"]}, {"path": "docs"}],
+                 [{"path": "lib/"}, {"path": "app/", "uses": ["lib/"]}, {"path": "docs", "uses": ["app/"]}],
+                 [{"path": "app/", "uses": ["app/core/"]}, {"path": "app/core/"}, {"path": "tool", "uses": ["app/"]}],
+                 [{"path": "tool/", "uses": ["svc/api/"]}, {"path": "svc/"}, {"path": "svc/api/", "uses": ["tool/"]}]]
+        for k, ts in enumerate(cases):
+            fx = fixture.Fixture(bins, [dict(t) for t in ts])
+            try:
+                fx.git_init()
+                cfg = runlib.cfg_abs(ts)
+                allr = sorted(runlib.P(t["path"]) for t in ts)
+                for api, args in (("cli_analyze", ["analyze", "--target-groups"]), ("cli_target_show", ["target", "show", "-g"])):
+                    r = fx.monorail(args)
+                    if r["rc"] == 0 and isinstance(r["out"], dict) and r["out"].get("target_groups") is not None:
+                        o = {"ok": True, "err": "", "groups": [sorted(runlib.P(x) for x in g) for g in r["out"]["target_groups"]]}
+                    else:
+                        o = {"ok": False, "err": fx.err_type(r)[0] or "other", "groups": []}
+                    recs.append({"ev": "groups", "config": cfg, "roots": allr, "pruned": False, "changed": [], "out": o, "via": "%s_slashed_%d" % (api, k)})
+            finally:
+                fx.cleanup()
+        return recs
     with ThreadPoolExecutor(max_workers=8) as ex:
         out = list(ex.map(one, range(n)))
-    extra = empty() if pid == "C03" else []
+    extra = (empty() if pid == "C03" else []) + (slashed() if pid in ("C03", "C09") else [])
     return [r for a, _ in out for r in a] + extra, [r for _, b in out for r in b]
 
 
